@@ -17,7 +17,7 @@ from zope.interface.interface import InterfaceClass
 
 import webob.exc
 from pyramid.config import Configurator
-from pyramid.events import NewRequest, BeforeTraversal, ContextFound
+from pyramid.events import NewRequest, BeforeTraversal, ContextFound, NewResponse
 from pyramid.exceptions import PredicateMismatch
 from pyramid import httpexceptions as hx
 from pyramid.interfaces import IRequest, IRouteRequest, IExceptionResponse, IResponse, IException
@@ -72,6 +72,8 @@ IFACE_IDS = {'IExceptionResponse': 80, 'IResponse': 81, 'IException': 82}
 IFACES = {'IExceptionResponse': IExceptionResponse, 'IResponse': IResponse, 'IException': IException}
 ID_OTHER = 90
 ID_SITE, ID_PRIOR, ID_ROOT, ID_RESPONSE = 500, 600, 700, 900
+ID_ABOVE, ID_OTHEREXC, ID_VIEWRESP = 550, 800, 901
+ABOVE_SITES = ['over_before', 'over_after', 'respcb', 'newresponse']
 ID_NF, ID_MM, ID_FB, ID_XNF, ID_XMM, ID_XFB = 1000, 1001, 1002, 1003, 1004, 1005
 ID_VIEWEXC = 2000            # + tag: raised by that statement's body on the normal path; + 1000 more on the exception path
 ID_AGAIN = 1000
@@ -174,14 +176,61 @@ def stmt_perm(st):
 def outer_factory(handler, registry):
     def outer(request):
         w = registry.verif_world
+        w.log['request'] = request
+        request.add_finished_callback(lambda req: w.log.__setitem__('after', snapshot(req)))
+        maybe_raise_above(w, 'over_before')
         try:
             resp = handler(request)
         except Exception as e:
             w.log['left'] = ('exc', e)
             raise
         w.log['left'] = ('resp', resp)
+        maybe_raise_above(w, 'over_after')
         return resp
     return outer
+
+
+def maybe_raise_above(w, at):
+    ab = w.above
+    if ab and ab.get('at') == at:
+        e = w.log['above_exc'] = make_exc(w, ab['exc'])
+        raise e
+
+
+def snapshot(req):
+    d = req.__dict__
+    ei = d.get('exc_info')
+    return (d.get('exception'), ei[1] if ei else None, d.get('response'), getattr(req, 'exception', None))
+
+
+def execution_policy(environ, router):
+    """`default_execution_policy` itself, or the documented pattern around it: try … except Exception:
+    return request.invoke_exception_view(…)"""
+    from pyramid.router import default_execution_policy
+    w = router.registry.verif_world
+    pol = w.policy
+    if not pol:
+        return default_execution_policy(environ, router)
+    with router.request_context(environ) as request:
+        try:
+            return router.invoke_request(request)
+        except Exception as e:
+            w.log['policy_caught'] = e
+            w.log['before_policy'] = snapshot(request)
+            w.log['policy_request'] = request
+            kw = {'secure': pol['secure'], 'reraise': pol['reraise']}
+            ei = pol.get('excinfo')
+            if ei == 'current':
+                kw['exc_info'] = sys.exc_info()
+            elif ei is not None:
+                o = w.log['other_exc'] = make_exc(w, ei)
+                kw['exc_info'] = (type(o), o, None)
+            try:
+                resp = request.invoke_exception_view(**kw)
+                w.log['policy_resp'] = resp
+                return resp
+            finally:
+                w.log['after_policy'] = snapshot(request)
 
 
 def inner_factory(handler, registry):
@@ -190,12 +239,8 @@ def inner_factory(handler, registry):
         w.log['request'] = request
         site = w.site
 
-        def finished(req):
-            d = req.__dict__
-            ei = d.get('exc_info')
-            w.log['after'] = (d.get('exception'), ei[1] if ei else None, d.get('response'),
-                              getattr(req, 'exception', None))
-        request.add_finished_callback(finished)
+        w.log['inner_ran'] = True
+        request.add_response_callback(lambda req, resp: maybe_raise_above(w, 'respcb'))
         if site.get('prior'):
             p = w.log['prior'] = RuntimeError('prior')
             request.exception = p
@@ -208,6 +253,7 @@ def inner_factory(handler, registry):
             return handler(request)
         except Exception as e:
             w.log['passing'] = e
+            w.log['ctx_at_exc'] = 'context' in request.__dict__
             raise
     return inner
 
@@ -238,8 +284,25 @@ class RaisingRendererFactory:
     def __call__(self, value, system):
         w = system['request'].registry.verif_world
         tag = value['tag']
-        e = w.log['view_exc'][(tag, w.log.get('passing') is not None)] = make_exc(w, value['exc'])
+        e = w.log['view_exc'][(tag, on_exc_path(w))] = make_exc(w, value['exc'])
+        w.log['view_exc_all'].append((tag, on_exc_path(w), e))
         raise e
+
+
+def on_exc_path(w):
+    return w.log.get('passing') is not None or w.log.get('policy_caught') is not None
+
+
+def my_pred_kwargs(w, st):
+    """keyword arguments of the predicates (c03's encoder knows every predicate but this vocabulary's containment references)"""
+    from pyramid.config import not_
+    o = dict(st['opts'])
+    cont = o.pop('containment', None)
+    pk = c03.pred_kwargs(w.classes, dict(st, opts=o))
+    if cont is not None:
+        cls = ref_class(w, cont)
+        pk['containment'] = not_(cls) if 'containment' in st.get('not', []) else cls
+    return pk
 
 
 class _Policy(c03._Policy):
@@ -256,9 +319,13 @@ def build_app(case):
         root = w.xclasses[case['root']]()          # the resource provides exactly what an exception of that class provides
     else:
         root = type('Root', (w.xclasses[case['root']],), {})()     # a resource whose class derives from an exception class
+    root.__name__ = None
+    root.__parent__ = None
     w.root = root
     w.log = {}
     w.site = {}
+    w.above = None
+    w.policy = None
     auto = case.get('commit', 'auto') == 'auto'
     kw = {}
     if not case.get('default_excview', True):
@@ -273,6 +340,8 @@ def build_app(case):
     config.registry.verif_world = w
     if case.get('policy', True):
         config.set_security_policy(_Policy())
+    config.set_execution_policy(execution_policy)
+    config.add_subscriber((lambda event: maybe_raise_above(w, 'newresponse')), NewResponse)
     config.add_tween('harness_c14.outer_factory', over=EXCVIEW)
     config.add_tween('harness_c14.inner_factory', under=EXCVIEW)
     config.add_traverser(TraverserFactory)
@@ -290,27 +359,35 @@ def build_app(case):
         body = st['body']
         renderer = None
         if body[0] == 'respond':
-            def view(context, request, tag=tag):
+            def view(context, request, tag=tag, touch=bool(st.get('touch'))):
                 record_seen(w, tag, context, request)
+                if touch and on_exc_path(w):
+                    w.log['view_resp'] = request.response
+                    request.response.headers['X-Exc-Touched'] = '1'
                 resp = Response('V%d' % tag)
                 resp.headers['X-Tag'] = 'V%d' % tag
                 return resp
         elif body[0] == 'raise' and body[2] == 'renderer':
             renderer = 'verifraise'
 
-            def view(context, request, tag=tag, ref=body[1]):
+            def view(context, request, tag=tag, ref=body[1], touch=bool(st.get('touch'))):
                 record_seen(w, tag, context, request)
+                if touch and on_exc_path(w):
+                    w.log['view_resp'] = request.response
                 return {'tag': tag, 'exc': ref}
         elif body[0] == 'raise':
-            def view(context, request, tag=tag, ref=body[1]):
+            def view(context, request, tag=tag, ref=body[1], touch=bool(st.get('touch'))):
                 record_seen(w, tag, context, request)
-                e = w.log['view_exc'][(tag, w.log.get('passing') is not None)] = make_exc(w, ref)
+                if touch and on_exc_path(w):
+                    w.log['view_resp'] = request.response
+                e = w.log['view_exc'][(tag, on_exc_path(w))] = make_exc(w, ref)
+                w.log['view_exc_all'].append((tag, on_exc_path(w), e))
                 raise e
         else:                                               # 'default': the real default_exceptionresponse_view
             view = None if st['kind'] in ('notfound', 'forbidden') else hx.default_exceptionresponse_view
         if view is not None and body[0] != 'default':
             view.__name__ = 'v%d' % tag
-        pk = c03.pred_kwargs(w.classes, st)
+        pk = my_pred_kwargs(w, st)
         if st.get('route'):
             pk['route_name'] = st['route']
         if renderer:
@@ -341,7 +418,8 @@ def build_app(case):
 def record_seen(w, tag, context, request):
     d = request.__dict__
     ei = d.get('exc_info')
-    w.log['seen'].append({'tag': tag, 'excpath': w.log.get('passing') is not None, 'context': context,
+    w.log['seen'].append({'tag': tag, 'excpath': on_exc_path(w), 'level': 'policy' if w.log.get('policy_caught') is not None else 'tween',
+                          'context': context,
                           'exception': d.get('exception'), 'exc_info': ei[1] if ei else None,
                           'exc_info_ok': (ei is None) or (len(ei) == 3 and ei[0] is type(ei[1])),
                           'response': d.get('response'), 'prop_exception': request.exception})
@@ -364,8 +442,10 @@ def get_world(case):
 def run_request(w, case):
     env = c03.make_environ(case['req'])
     w.site = case['site']
+    w.above = case.get('above')
+    w.policy = case.get('xpolicy')
     w.log.clear()
-    w.log.update({'seen': [], 'view_exc': {}})
+    w.log.update({'seen': [], 'view_exc': {}, 'view_exc_all': []})
     sh = {}
 
     def start_response(status, headers, exc_info=None):
@@ -390,10 +470,16 @@ def oid(w, x):
         return ID_PRIOR
     if x is lg.get('touched'):
         return ID_RESPONSE
+    if x is lg.get('above_exc'):
+        return ID_ABOVE
+    if x is lg.get('other_exc'):
+        return ID_OTHEREXC
+    if x is lg.get('view_resp'):
+        return ID_VIEWRESP
     if x is w.root:
         return ID_ROOT
     p = lg.get('passing')
-    for (tag, excpath), e in lg['view_exc'].items():
+    for tag, excpath, e in lg['view_exc_all']:
         if x is e:
             return ID_VIEWEXC + tag + (ID_AGAIN if excpath else 0)
     if p is not None and x is p:
@@ -414,33 +500,44 @@ def oid(w, x):
     return 'other:' + type(x).__name__
 
 
+def canon_out(w, kind, obj, sh=None):
+    if kind == 'exc':
+        return ['raise', oid(w, obj)]
+    hdrs = dict(getattr(obj, 'headerlist', None) or [])
+    tag = hdrs.get('X-Tag')
+    if tag is not None and tag.startswith('V'):
+        return ['resp', 'view', int(tag[1:])]
+    if isinstance(obj, BaseException):
+        return ['resp', 'self', oid(w, obj), obj.status_int]
+    return ['resp', 'other', getattr(obj, 'status', None)]
+
+
 def observe(w, case):
     env, sh, raised = run_request(w, case)
     lg = w.log
     left = lg.get('left')
-    out = None
+    tout = canon_out(w, left[0], left[1]) if left else None             # what left the excview tween
     if raised is not None:
         out = ['raise', oid(w, raised)]
-        if left is None or left[0] != 'exc' or left[1] is not raised:
-            out.append('changed-above-excview')
+    elif lg.get('policy_caught') is not None:
+        out = canon_out(w, 'resp', lg.get('policy_resp'))
+    elif left and left[0] == 'resp':
+        out = canon_out(w, 'resp', left[1])
+        if out[0] == 'resp' and out[1] in ('view', 'self') and int(sh['status'][:3]) != left[1].status_int:
+            out.append('status-changed')
     else:
-        resp = left[1] if left and left[0] == 'resp' else None
-        tag = dict(sh.get('headers', [])).get('X-Tag')
-        if tag is not None and tag.startswith('V'):
-            out = ['resp', 'view', int(tag[1:])]
-        elif resp is not None and isinstance(resp, BaseException):
-            out = ['resp', 'self', oid(w, resp), int(sh['status'][:3])]
-        else:
-            out = ['resp', 'other', sh.get('status')]
+        out = ['resp', 'other', sh.get('status')]
+    level = 'policy' if lg.get('policy_caught') is not None else 'tween'
     seen = None
     exc_seen = [s for s in lg['seen'] if s['excpath']]
-    if exc_seen:
-        s = exc_seen[-1]
+    lvl_seen = [s for s in exc_seen if s['level'] == level]
+    if lvl_seen:
+        s = lvl_seen[-1]
         seen = [oid(w, s['context']), oid(w, s['exception']), oid(w, s['exc_info']), oid(w, s['response'])]
-    after = lg.get('after')
+    after = lg.get('after_policy') if level == 'policy' else lg.get('after')
     attrs = None if after is None else [oid(w, after[0]), oid(w, after[1]), oid(w, after[2])]
-    return {'out': out, 'seen': seen, 'attrs': attrs, 'caught': oid(w, lg.get('passing')),
-            'n_exc_view_calls': len(exc_seen), 'env': env}
+    return {'out': out, 'tout': tout, 'seen': seen, 'attrs': attrs, 'caught': oid(w, lg.get('passing')),
+            'n_exc_view_calls': len(exc_seen), 'env': env, 'raised': raised}
 
 
 # ------------------------------------------------------------------------------------------------------
@@ -482,6 +579,13 @@ def model_preds(w, st):
             add(name, {'l': list(v) if isinstance(v, list) else [v]})
     if 'path_info' in o:
         add('path_info', {'s': o['path_info']})
+    if 'containment' in o:
+        add('containment', {'i': ref_id(o['containment']), 'r': str(ref_class(w, o['containment']))})
+    if 'physical_path' in o:
+        v = o['physical_path']
+        from pyramid.predicates import PhysicalPathPredicate
+        rep_ = PhysicalPathPredicate(tuple(v) if isinstance(v, list) else v, None).text()[len('physical_path = '):]
+        add('physical_path', {'k': 'pp_seq', 'l': v, 'r': rep_} if isinstance(v, list) else {'k': 'pp_str', 's': v, 'r': rep_})
     if 'is_authenticated' in o:
         add('is_authenticated', {'b': bool(o['is_authenticated'])})
     for i in o.get('custom', []):
@@ -491,7 +595,7 @@ def model_preds(w, st):
 
 
 def real_phash(w, st):
-    kw = c03.pred_kwargs(w.classes, st)
+    kw = my_pred_kwargs(w, st)
     if 'custom_predicates' in kw:
         kw['custom'] = predvalseq(kw.pop('custom_predicates'))
     if 'accept' in kw:
@@ -516,18 +620,31 @@ def model_input(w, case, obs):
     if case.get('default_excview', True):
         for ctx, tag in ((IFACE_IDS['IExceptionResponse'], TAG_DEFAULT), (BUILTIN_IDS['WebobHTTPException'], TAG_DEFAULT_WEBOB)):
             stmts.append({'req': 0, 'ctx': ctx, 'name': '', 'preds': [], 'accept': None, 'perm': 'unset', 'isexc': True,
-                          'xonly': False, 'tag': tag, 'body': ['ctx']})
+                          'xonly': False, 'tag': tag, 'body': ['ctx'], 'touch': False})
     for st in case['stmts']:
         perm = stmt_perm(st)
         stmts.append({'req': 0 if not st.get('route') else 1 + routes.index(st['route']), 'ctx': stmt_ctx_id(st),
                       'name': st['name'] if st['kind'] == 'view' else '', 'preds': model_preds(w, st),
                       'accept': c03.offer_data(w, st['accept'], ids) if st.get('accept') is not None else None,
                       'perm': 'unset' if perm is None else ('npr' if perm == 'npr' else 'named'),
-                      'isexc': stmt_isexc(st), 'xonly': stmt_xonly(st), 'tag': st['tag'], 'body': body_json(w, st)})
+                      'isexc': stmt_isexc(st), 'xonly': stmt_xonly(st), 'tag': st['tag'], 'body': body_json(w, st),
+                      'touch': bool(st.get('touch')) and st['body'][0] != 'default'})
     world = {'policy': bool(case.get('policy', True)), 'defperm': bool(case.get('defperm')),
              'nf': exc_record(w, hx.HTTPNotFound(), ID_NF), 'mm': exc_record(w, PredicateMismatch(), ID_MM),
              'fb': exc_record(w, hx.HTTPForbidden(), ID_FB), 'xnf': exc_record(w, hx.HTTPNotFound(), ID_XNF),
-             'xmm': exc_record(w, PredicateMismatch(), ID_XMM), 'xfb': exc_record(w, hx.HTTPForbidden(), ID_XFB)}
+             'xmm': exc_record(w, PredicateMismatch(), ID_XMM), 'xfb': exc_record(w, hx.HTTPForbidden(), ID_XFB), 'vresp': ID_VIEWRESP}
+    ab = case.get('above') or {}
+    above = {'before': None, 'after': None}
+    if ab.get('at') == 'over_before':
+        above['before'] = exc_record(w, make_exc(w, ab['exc']), ID_ABOVE)
+    elif ab.get('at') in ABOVE_SITES:
+        above['after'] = exc_record(w, make_exc(w, ab['exc']), ID_ABOVE)
+    pol = case.get('xpolicy')
+    mpol = None
+    if pol:
+        ei = pol.get('excinfo')
+        mpol = {'excinfo': (None if ei is None else 'current' if ei == 'current' else exc_record(w, make_exc(w, ei), ID_OTHEREXC)),
+                'secure': bool(pol['secure']), 'reraise': bool(pol['reraise'])}
     site = case['site']
     request = w.log.get('request')
     if site.get('at') in EARLY_SITES:
@@ -540,12 +657,18 @@ def model_input(w, case, obs):
     comb = [req_iface_id(w, case, i) for i in riface.combined.__sro__]
     csro = [spec_id(w, s) for s in providedBy(w.root).__sro__]
     areq = abstract_request(w, effective(case), obs['env'], ids, d.get('matchdict'), d.get('view_name', ''), rsro, csro)
+    # request.context as the exception-view lookup of the tween finds it: the root once traversal has run, absent before
+    has_ctx = w.log.get('ctx_at_exc', True) if w.log.get('passing') is not None else True
+    areq['lineage'] = [sorted(set(csro))] if has_ctx else []
+    areq['phys'] = ['']
     attrs = []
-    if site.get('prior'):
-        attrs += [['exception', ID_PRIOR], ['exc_info', ID_PRIOR]]
-    if site.get('touch'):
-        attrs += [['response', ID_RESPONSE]]
-    return {'stmts': stmts, 'world': world, 'site': msite, 'req': areq, 'comb': comb, 'ctxobj': ID_ROOT, 'attrs': attrs}
+    if w.log.get('inner_ran'):
+        if site.get('prior'):
+            attrs += [['exception', ID_PRIOR], ['exc_info', ID_PRIOR]]
+        if site.get('touch'):
+            attrs += [['response', ID_RESPONSE]]
+    return {'stmts': stmts, 'world': world, 'site': msite, 'req': areq, 'comb': comb, 'ctxobj': ID_ROOT, 'attrs': attrs,
+            'above': above, 'policy': mpol}
 
 
 def abstract_request(w, case, env, ids, md, view_name, rsro, csro):
@@ -584,8 +707,24 @@ def abstract_request(w, case, env, ids, md, view_name, rsro, csro):
 # ------------------------------------------------------------------------------------------------------
 # the property, stated directly on the implementation's observations (independent of the Lean model)
 
-def stmt_holds(w, st, ctxinfo):
-    return c03.reg_holds(w, st, ctxinfo)
+def stmt_holds(w, st, wr, md, case, ctx_of):
+    """documented truth conditions of the statement's predicates (c03.doc_pred); `ctx_of(name)` = the object the predicate
+    called `name` is documented to look at"""
+    o = st['opts']
+    notted = set(st.get('not', []))
+    for name, val in o.items():
+        ctxinfo = (wr, ctx_of(name), md, case)
+        if name == 'custom':
+            if not all(i in case['req'].get('custom', []) for i in val):
+                return False
+        elif name == 'containment':
+            if not c03.doc_pred(name, ref_class(w, val), name in notted, ctxinfo):
+                return False
+        elif not c03.doc_pred(name, val, name in notted, ctxinfo):
+            return False
+    if st.get('accept') is not None and not c03.doc_pred('accept', st['accept'], False, (wr, None, md, case)):
+        return False
+    return True
 
 
 def effective(case):
@@ -593,91 +732,11 @@ def effective(case):
     return dict(case, req=dict(case['req'], auth=bool(case['req'].get('auth')) and bool(case.get('policy', True))))
 
 
-def oracle(w, case, obs):
-    """C14's statement.  E = the exception the excview tween caught (the original).
-    * the exception views that apply to E: statements whose context is an exception type / interface E is an instance of,
-      registered under the view name '' (exception lookup uses no view name), global or bound to the matched route, in
-      force (same route, context, name and predicates: the later statement replaces the earlier), predicates all true;
-    * ranked by (route-bound before global, position of the registered class in E's resolution order);
-    * some applies  => the response is produced by one of the best-ranked ones; its body saw E as context, as
-      request.exception and in request.exc_info; request.exception is E afterwards;
-    * none applies  => the very object E leaves the router and request.exception / exc_info are as before;
-    * an HTTP exception for which only the default exception-response view applies is itself the response (so an
-      unmatched URL gives 404 and a refused permission 403)."""
-    lg = w.log
-    E = lg.get('passing')
-    stats = {'caught': E is not None, 'applicable': 0, 'qualifying': 0, 'minimal': 0}
-    request = lg.get('request')
-    out = obs['out']
-    if request is None:
-        return {'detail': 'request never reached the tween under excview', 'case': case, 'impl': obs_public(obs), 'expected': None}, stats
-    d = request.__dict__
-    wr = Request(c03.make_environ(case['req']))
-    ctxinfo = (wr, None, d.get('matchdict'), effective(case))
-    viol = None
-
-    def V(detail, expected=None, finding=None):
-        v = {'detail': detail, 'case': case, 'impl': obs_public(obs), 'expected': expected}
-        if finding:
-            v['finding'] = finding
-        return v
-    # -- what must have been raised when the request reached view lookup without any raising site
-    site = case['site']
-    matched = getattr(d.get('matched_route'), 'name', None)
-    if site.get('at') in EARLY_SITES:
-        if E is not lg.get('site_exc') or E is None:
-            return V('the exception raised at the site is not the one the excview tween caught'), stats
-    else:
-        vn = d.get('view_name', '')
-        normal = []
-        for st in case['stmts']:
-            if st['kind'] != 'view' or st.get('xonly'):
-                continue
-            _, cls = stmt_context(w, st)
-            if st['name'] != vn:
-                continue
-            if st.get('route') and st['route'] != matched:
-                continue
-            if not st.get('route') and matched is not None and not [r for r in case['routes'] if r['name'] == matched][0].get('ugv'):
-                continue
-            if cls is not None and not (cls.providedBy(w.root) if isinstance(cls, InterfaceClass) else isinstance(w.root, cls)):
-                continue
-            normal.append(st)
-        stats['normal_applicable'] = len(normal)
-        if not normal:
-            # an unmatched URL: HTTPNotFound is what has to be rendered
-            if not isinstance(E, hx.HTTPNotFound):
-                return V('no view is registered for the request but no HTTPNotFound reached the excview tween',
-                         'HTTPNotFound raised by the router'), stats
-        elif len(normal) == 1 and stmt_holds(w, normal[0], ctxinfo):
-            st = normal[0]
-            perm = st.get('perm')
-            protected = case.get('policy', True) and (perm == 'p' or (perm is None and case.get('defperm')))
-            if protected and not case['req'].get('permitted', True):
-                if not isinstance(E, hx.HTTPForbidden):
-                    return V('the only applicable view is protected and the policy refuses, but no HTTPForbidden reached the excview tween',
-                             'HTTPForbidden'), stats
-            elif st['body'][0] == 'respond':
-                if E is not None or out != ['resp', 'view', st['tag']]:
-                    return V('the only applicable view qualifies and is permitted but did not answer', ['resp', 'view', st['tag']]), stats
-    for (t, xp), X in lg['view_exc'].items():
-        if not xp and X is not E:
-            v = V('an exception raised by a view body never reached the excview tween: it was not rendered by an exception view and did not propagate',
-                  {'raised_by_view': t, 'type': type(X).__name__})
-            if isinstance(X, PredicateMismatch):
-                v['finding'] = 'F-C14c'
-                v['detail'] = ('a view body raised a PredicateMismatch instance: _call_view / MultiView took it for a failed predicate and went on to the '
-                               'next view; the exception was neither rendered by an exception view nor propagated')
-            return v, stats
-    if E is None:
-        # nothing raised: nothing for C14 to say beyond "no exception view ran"
-        if obs['n_exc_view_calls']:
-            return V('an exception view ran although nothing was raised'), stats
-        return None, stats
-    stats['E_multi'] = any(len(c.__bases__) >= 2 for c in type(E).__mro__ if c in w.xclasses)
-    stats['E_http'] = isinstance(E, (hx.HTTPException, webob.exc.WSGIHTTPException))
-    stats['E_pm'] = isinstance(E, PredicateMismatch)
-    # -- the applicable exception views
+def exception_view_candidates(w, case, E, wr, md, matched, cont_ctx):
+    """the exception views that apply to E, ranked.  `cont_ctx` = what `containment` looks at: request.context when the
+    request has one (the ORIGINAL context), else the exception; `physical_path` is asked about the view's context argument,
+    the exception."""
+    ecase = effective(case)
     esro = list(providedBy(E).__sro__)
     last = {}
     infos = []
@@ -715,70 +774,249 @@ def oracle(w, case, obs):
             if route is not None and route != matched:
                 continue
             inf = dict(inf, rank=(0 if route is not None else 1, esro.index(spec)),
-                       holds=stmt_holds(w, inf['st'], ctxinfo))
+                       holds=stmt_holds(w, inf['st'], wr, md, ecase, lambda n: cont_ctx if n == 'containment' else E))
             cands.append(inf)
     qual = [c for c in cands if c['holds']]
     minimal = [c for c in qual if not any(q['rank'] < c['rank'] for q in qual)]
-    stats.update({'applicable': len(cands), 'qualifying': len(qual), 'minimal': len(minimal),
-                  'winner_rank': (minimal[0]['rank'] if minimal else None),
-                  'nearer_failed': any(c['rank'] < minimal[0]['rank'] for c in cands) if minimal else False})
-    prior = lg.get('prior')
-    exp = {'caught': type(E).__name__, 'best': sorted(c['st']['tag'] for c in minimal), 'qualifying': sorted(c['st']['tag'] for c in qual)}
-    after = lg.get('after')
+    return cands, qual, minimal
+
+
+def judge(w, case, obs, stats, V, E, out, obj, seen_entries, before, after, wr, md, matched, cont_ctx, mode, secure=True, reraise=False):
+    """the statement applied to ONE rendering of exception E (by the excview tween: mode 'tween'; by an explicit
+    invoke_exception_view: mode 'invoke').  `out`/`obj` = canonical outcome and the object that left; `before`/`after` =
+    (request.__dict__ exception, exc_info[1], response, request.exception) before / after."""
+    cands, qual, minimal = exception_view_candidates(w, case, E, wr, md, matched, cont_ctx)
+    if mode == 'tween' or 'applicable' not in stats or not stats.get('caught'):
+        stats.update({'applicable': len(cands), 'qualifying': len(qual), 'minimal': len(minimal),
+                      'winner_rank': (minimal[0]['rank'] if minimal else None),
+                      'nearer_failed': any(c['rank'] < minimal[0]['rank'] for c in cands) if minimal else False})
+    V0 = V
+
+    def V(detail, expected=None):
+        v = V0(detail, expected)
+        if mode == 'invoke' and not secure and out[:2] == ['resp', 'view']:
+            ran = [c for c in cands if c['st']['tag'] == out[2]]
+            if ran and ran[0]['protected'] and not ran[0]['holds']:
+                # F-C14d: _call_view(secure=False) calls __call_permissive__, which for a single protected view is the callable
+                # below secured_view AND below predicated_view: its predicates are not checked
+                v['finding'] = 'F-C14d'
+                v['detail'] = ('invoke_exception_view(secure=False): a protected exception view answered although one of its predicates is '
+                               'false (__call_permissive__ bypasses the predicate wrapper of a single view)')
+        return v
+    if mode == 'invoke' and not secure:
+        for s_ in seen_entries:
+            ran = [c for c in cands if c['st']['tag'] == s_['tag']]
+            if ran and ran[0]['protected'] and not ran[0]['holds']:
+                v = V0('a protected exception view ran although one of its predicates is false')
+                v['finding'] = 'F-C14d'
+                v['detail'] = ('invoke_exception_view(secure=False): a protected exception view ran although one of its predicates is '
+                               'false (__call_permissive__ bypasses the predicate wrapper of a single view)')
+                return v
+    exp = {'rendering': mode, 'caught': type(E).__name__, 'best': sorted(c['st']['tag'] for c in minimal),
+           'qualifying': sorted(c['st']['tag'] for c in qual)}
     if not qual:
         # no exception view applies: the original object propagates, attributes as before
         if out[0] != 'raise':
-            return V('no exception view applies but a response was produced', exp), stats
-        raised_obj = lg['left'][1] if lg.get('left') and lg['left'][0] == 'exc' else None
-        if raised_obj is not E or len(out) > 2:
-            return V('no exception view applies but the exception leaving the router is not the original object', exp), stats
-        if after is None or after[0] is not prior or after[1] is not prior or after[3] is not prior:
-            return V('no exception view applies but request.exception / exc_info are not as before', exp), stats
-        return None, stats
+            return V('no exception view applies but a response was produced', exp)
+        if mode == 'invoke' and not reraise:
+            if not isinstance(obj, hx.HTTPNotFound) or obj is E:
+                return V('invoke_exception_view(reraise=False) found no view but did not raise HTTPNotFound', exp)
+        elif obj is not E:
+            return V('no exception view applies but the exception leaving is not the original object', exp)
+        if after is None or after[0] is not before[0] or after[1] is not before[1] or after[3] is not before[3]:
+            return V('no exception view applies but request.exception / exc_info are not as before', exp)
+        return None
     if any(c['st']['body'][0] == 'raise' for c in minimal):
         stats['silent'] = 'best exception view raises'
-        return None, stats                  # the statement says nothing about exception views that raise
-    refused = [c for c in minimal if c['protected'] and not case['req'].get('permitted', True)]
+        return None                  # the statement says nothing about exception views that raise
+    permitted = bool(case['req'].get('permitted', True)) or not secure
+    refused = [c for c in minimal if c['protected'] and not permitted]
     if out[0] == 'raise':
+        if refused and mode == 'invoke':
+            stats['silent'] = 'explicit invocation refused'
+            return None
         v = V('an exception view applies but no response was produced', exp)
         if refused and out[1] == ID_XFB:
             v['finding'] = 'F-C14a'
             v['detail'] = ('the best applicable exception view is protected and refused: a new HTTPForbidden leaves the router '
                            'instead of a response (neither the view\'s response nor the original exception)')
-        return v, stats
+        return v
     ok_tags = {c['st']['tag']: c for c in minimal}
     if out[1] == 'view':
         if out[2] not in ok_tags:
-            return V('the response was not produced by a best-ranked applicable exception view', exp), stats
+            return V('the response was not produced by a best-ranked applicable exception view', exp)
         win = ok_tags[out[2]]
         if win in refused:
-            return V('a protected exception view ran although the policy refused', exp), stats
+            return V('a protected exception view ran although the policy refused', exp)
     elif out[1] == 'self':
         defaults = [c for c in minimal if c['st']['body'][0] == 'default' and c not in refused]
-        left = lg.get('left')
-        if not defaults or left is None or left[1] is not E:
-            return V('the exception object was returned as the response although no best-ranked view is the exception-response view', exp), stats
+        if not defaults or obj is not E:
+            return V('the exception object was returned as the response although no best-ranked view is the exception-response view', exp)
         want = getattr(type(E), 'code', None)
         if want is not None and out[3] != want:
-            return V('an HTTP exception returned as the response does not carry its own status', dict(exp, status=want)), stats
+            return V('an HTTP exception returned as the response does not carry its own status', dict(exp, status=want))
         if type(E) in (hx.HTTPNotFound, PredicateMismatch) and out[3] != 404 or type(E) is hx.HTTPForbidden and out[3] != 403:
-            return V('404 / 403 expected', exp), stats
+            return V('404 / 403 expected', exp)
     else:
-        return V('unexpected response %r' % (out,), exp), stats
+        return V('unexpected response %r' % (out,), exp)
     # the view saw the exception; the attributes persist
-    exc_seen = [s for s in lg['seen'] if s['excpath']]
     if out[1] == 'view':
-        if not exc_seen:
-            return V('the winning exception view did not run on the exception path', exp), stats
-        s = exc_seen[-1]
+        if not seen_entries:
+            return V('the winning exception view did not run on the exception path', exp)
+        s = seen_entries[-1]
         if s['tag'] != out[2] or s['context'] is not E or s['exception'] is not E or s['exc_info'] is not E or not s['exc_info_ok'] \
                 or s['prop_exception'] is not E:
-            return V('the exception view did not see the exception as context / request.exception / request.exc_info', exp), stats
+            return V('the exception view did not see the exception as context / request.exception / request.exc_info', exp)
     if after is None or after[0] is not E or after[3] is not E:
-        return V('request.exception is not the rendered exception afterwards', exp), stats
+        return V('request.exception is not the rendered exception afterwards', exp)
     if after[1] is not E:
-        return V('request.exc_info does not hold the rendered exception afterwards', exp), stats
-    return None, stats
+        return V('request.exc_info does not hold the rendered exception afterwards', exp)
+    return None
+
+
+def oracle(w, case, obs):
+    """C14's statement.  E = the exception the excview tween caught (the original).
+    * the exception views that apply to E: statements whose context is an exception type / interface E is an instance of,
+      registered under the view name '' (exception lookup uses no view name), global or bound to the matched route, in
+      force (same route, context, name and predicates: the later statement replaces the earlier), predicates all true
+      (evaluated on the original request; containment on the original context when there is one);
+    * ranked by (route-bound before global, position of the registered class in E's resolution order);
+    * some applies  => the response is produced by one of the best-ranked ones; its body saw E as context, as
+      request.exception and in request.exc_info; request.exception is E afterwards;
+    * none applies  => the very object E leaves and request.exception / exc_info are as before — also when the request
+      already carries the attributes of an earlier, handled exception;
+    * an HTTP exception for which only the default exception-response view applies is itself the response (so an
+      unmatched URL gives 404 and a refused permission 403);
+    * an exception raised ABOVE the excview tween (a tween over it, a response callback, a NewResponse subscriber) is outside
+      the tween: under the default execution policy the same object reaches the server; an execution policy that calls
+      request.invoke_exception_view renders it by the same rules."""
+    lg = w.log
+    E = lg.get('passing')
+    stats = {'caught': E is not None, 'applicable': 0, 'qualifying': 0, 'minimal': 0}
+    request = lg.get('request')
+    out = obs['out']
+
+    def V(detail, expected=None, finding=None):
+        v = {'detail': detail, 'case': case, 'impl': obs_public(obs), 'expected': expected}
+        if finding:
+            v['finding'] = finding
+        return v
+    if request is None:
+        return V('request never reached the tween over excview'), stats
+    d = request.__dict__
+    wr = Request(c03.make_environ(case['req']))
+    md = d.get('matchdict')
+    ecase = effective(case)
+    site = case['site']
+    above = case.get('above') or {}
+    pol = case.get('xpolicy')
+    A = lg.get('above_exc')
+    matched = getattr(d.get('matched_route'), 'name', None)
+    tout = obs['tout']
+    left = lg.get('left')
+    viol = None
+    if above.get('at') == 'over_before':
+        if A is None or lg.get('inner_ran') or [s_ for s_ in lg['seen'] if s_['level'] == 'tween']:
+            return V('a tween over the excview tween raised before calling its handler, yet the pipeline below ran'), stats
+    else:
+        viol = _tween_level(w, case, obs, stats, V, E, tout, left, wr, md, ecase, matched)
+        if viol and not viol.get('finding'):
+            return viol, stats
+    first = viol        # a known finding at the tween level: the levels above are still judged
+    # -- above the tween / the execution policy
+    X = lg.get('policy_caught')
+    final_exc = obs['raised']
+    if not pol:
+        if A is not None:
+            if final_exc is not A:
+                return first or V('an exception raised above the excview tween did not reach the server as the same object',
+                                  {'raised_above': type(A).__name__}), stats
+        elif left is not None and (final_exc is not None) != (left[0] == 'exc') or (final_exc is not None and left and final_exc is not left[1]):
+            return first or V('what left the excview tween is not what left the router although nothing above raised'), stats
+        return first, stats
+    # an execution policy that invokes the exception view itself
+    if X is None:
+        return first, stats
+    ei = pol.get('excinfo')
+    R = lg.get('other_exc') if ei not in (None, 'current') else X          # no exc_info given => the exception being handled
+    stats['policy_level'] = True
+    pobj = final_exc if final_exc is not None else lg.get('policy_resp')
+    pseen = [s_ for s_ in lg['seen'] if s_['excpath'] and s_['level'] == 'policy']
+    viol = judge(w, case, obs, stats, V, R, out, pobj, pseen, lg.get('before_policy'), lg.get('after_policy'), wr, md, matched,
+                 R, 'invoke', secure=bool(pol['secure']), reraise=bool(pol['reraise']))        # request.context is gone by now
+    if first:
+        if viol:
+            first['also'] = viol.get('finding') or viol['detail']
+            if not viol.get('finding'):
+                return viol, stats
+        return first, stats
+    return viol, stats
+
+
+def _tween_level(w, case, obs, stats, V, E, tout, left, wr, md, ecase, matched):
+    lg = w.log
+    request = lg.get('request')
+    d = request.__dict__
+    site = case['site']
+    # -- what must have been raised when the request reached view lookup without any raising site
+    if site.get('at') in EARLY_SITES:
+        if E is not lg.get('site_exc') or E is None:
+            return V('the exception raised at the site is not the one the excview tween caught')
+    else:
+        vn = d.get('view_name', '')
+        normal = []
+        for st in case['stmts']:
+            if st['kind'] != 'view' or st.get('xonly'):
+                continue
+            _, cls = stmt_context(w, st)
+            if st['name'] != vn:
+                continue
+            if st.get('route') and st['route'] != matched:
+                continue
+            if not st.get('route') and matched is not None and not [r for r in case['routes'] if r['name'] == matched][0].get('ugv'):
+                continue
+            if cls is not None and not (cls.providedBy(w.root) if isinstance(cls, InterfaceClass) else isinstance(w.root, cls)):
+                continue
+            normal.append(st)
+        stats['normal_applicable'] = len(normal)
+        if not normal:
+            # an unmatched URL: HTTPNotFound is what has to be rendered
+            if not isinstance(E, hx.HTTPNotFound):
+                return V('no view is registered for the request but no HTTPNotFound reached the excview tween',
+                         'HTTPNotFound raised by the router')
+        elif len(normal) == 1 and stmt_holds(w, normal[0], wr, md, ecase, lambda n: w.root):
+            st = normal[0]
+            perm = st.get('perm')
+            protected = case.get('policy', True) and (perm == 'p' or (perm is None and case.get('defperm')))
+            if protected and not case['req'].get('permitted', True):
+                if not isinstance(E, hx.HTTPForbidden):
+                    return V('the only applicable view is protected and the policy refuses, but no HTTPForbidden reached the excview tween',
+                             'HTTPForbidden')
+            elif st['body'][0] == 'respond':
+                if E is not None or tout != ['resp', 'view', st['tag']]:
+                    return V('the only applicable view qualifies and is permitted but did not answer', ['resp', 'view', st['tag']])
+    for (t, xp), X in lg['view_exc'].items():
+        if not xp and X is not E:
+            v = V('an exception raised by a view body never reached the excview tween: it was not rendered by an exception view and did not propagate',
+                  {'raised_by_view': t, 'type': type(X).__name__})
+            if isinstance(X, PredicateMismatch):
+                v['finding'] = 'F-C14c'
+                v['detail'] = ('a view body raised a PredicateMismatch instance: _call_view / MultiView took it for a failed predicate and went on to the '
+                               'next view; the exception was neither rendered by an exception view nor propagated')
+            return v
+    if E is None:
+        # nothing raised: nothing for C14 to say beyond "no exception view ran"
+        if [s_ for s_ in lg['seen'] if s_['excpath'] and s_['level'] == 'tween']:
+            return V('an exception view ran although nothing was raised')
+        return None
+    stats['E_multi'] = any(len(c.__bases__) >= 2 for c in type(E).__mro__ if c in w.xclasses)
+    stats['E_http'] = isinstance(E, (hx.HTTPException, webob.exc.WSGIHTTPException))
+    stats['E_pm'] = isinstance(E, PredicateMismatch)
+    prior = lg.get('prior')
+    tseen = [s_ for s_ in lg['seen'] if s_['excpath'] and s_['level'] == 'tween']
+    cont_ctx = w.root if lg.get('ctx_at_exc') else E
+    return judge(w, case, obs, stats, V, E, tout, left[1] if left else None, tseen, (prior, prior, None, prior), lg.get('after'),
+                 wr, md, matched, cont_ctx, 'tween')
 
 
 def obs_public(obs):
@@ -794,7 +1032,8 @@ BASE_BUILTINS = ['Exception', 'Exception', 'Exception', 'ValueError', 'KeyError'
                  'HTTPBadRequest', 'HTTPException', 'PredicateMismatch']
 CTX_BUILTINS = ['Exception', 'Exception', 'ValueError', 'LookupError', 'HTTPException', 'HTTPClientError', 'HTTPNotFound', 'HTTPForbidden',
                 'PredicateMismatch', 'HTTPError']
-PRED_NAMES = ['xhr', 'request_method', 'path_info', 'request_param', 'header', 'match_param', 'is_authenticated', 'custom']
+PRED_NAMES = ['xhr', 'request_method', 'path_info', 'request_param', 'header', 'match_param', 'is_authenticated', 'custom',
+              'containment', 'physical_path', 'request_method']
 
 
 def gen_xclasses(rng):
@@ -840,10 +1079,10 @@ def ancestors(xclasses, ref):
     return out
 
 
-def gen_opts(rng, offers, rich=False):
+def gen_opts(rng, offers, rich=False, cont_refs=None):
     o, notted = {}, []
     k = rng.choice([0, 0, 0, 1, 1, 1, 2, 2] + ([3, 4] if rich else []))
-    for name in rng.sample(PRED_NAMES, k):
+    for name in dict.fromkeys(rng.sample(PRED_NAMES, k)):
         if name == 'xhr':
             o[name] = rng.random() < 0.6
         elif name == 'request_method':
@@ -858,6 +1097,10 @@ def gen_opts(rng, offers, rich=False):
             o[name] = rng.choice(c03.MATCH_SPECS) if rng.random() < 0.7 else rng.sample(c03.MATCH_SPECS, 2)
         elif name == 'is_authenticated':
             o[name] = rng.random() < 0.5
+        elif name == 'containment':
+            o[name] = rng.choice(cont_refs or [['b', 'Exception']])
+        elif name == 'physical_path':
+            o[name] = rng.choice(['/', [''], '/k1', ['', 'k1'], '//'])
         elif name == 'custom':
             o[name] = rng.sample(range(4), rng.choice([1, 1, 2]))
         if name != 'custom' and rng.random() < 0.15:
@@ -890,6 +1133,7 @@ def gen_app(rng, big=False):
         if raised[0] == 'u' and raised[1] in plain and rng.random() < 0.6:
             root = raised[1]       # the context resource is an instance of (a subclass of) the raised exception's class
     site_at = rng.choice(EARLY_SITES + ['none'] * 5)
+    cont_refs = ([['u', root]] * 2 if root is not None else []) + [x for x in rel if x[0] == 'u'][:2] + [['b', 'Exception'], ['b', 'ValueError']]
 
     def ctx_ref():
         r = rng.random()
@@ -927,7 +1171,7 @@ def gen_app(rng, big=False):
                 st['body'] = ['respond']
             stmts.append(st)
             continue
-        o, notted, accept = gen_opts(rng, offers, rich)
+        o, notted, accept = gen_opts(rng, offers, rich, cont_refs)
         r = rng.random()
         if r < 0.42:
             st = {'kind': 'exc', 'ctx': ctx_ref() if rng.random() < 0.9 else None, 'name': '', 'body': body(False)}
@@ -945,7 +1189,8 @@ def gen_app(rng, big=False):
             st = {'kind': 'forbidden', 'ctx': None, 'name': '', 'body': body(True)}
         if st['body'][0] == 'default':
             accept = accept      # default_exceptionresponse_view with predicates is fine
-        st.update({'route': route, 'opts': o, 'not': notted, 'accept': accept, 'tag': tag})
+        st.update({'route': route, 'opts': o, 'not': notted, 'accept': accept, 'tag': tag,
+                   'touch': st['body'][0] != 'default' and rng.random() < 0.25})
         stmts.append(st)
     site = {'at': site_at, 'exc': raised, 'prior': rng.random() < 0.3, 'touch': rng.random() < 0.25}
     root_same = bool(root is not None and rng.random() < 0.6)
@@ -962,6 +1207,21 @@ def gen_app(rng, big=False):
             'default_excview': rng.random() < 0.85, 'stmts': stmts, 'commit': rng.choice(['auto', 'auto', 'each']), 'site': site}
 
 
+def gen_above(rng, app):
+    n = len(app['xclasses'])
+    if rng.random() < 0.22:
+        return {'at': rng.choice(ABOVE_SITES), 'exc': (['u', rng.randrange(n)] if rng.random() < 0.7 else ['b', rng.choice(RAISABLE_BUILTINS)])}
+    return None
+
+
+def gen_xpolicy(rng, app):
+    n = len(app['xclasses'])
+    if rng.random() < 0.3:
+        return {'excinfo': rng.choice([None, None, 'current', 'current', ['u', rng.randrange(n)]]), 'secure': rng.random() < 0.75,
+                'reraise': rng.random() < 0.6}
+    return None
+
+
 def gen_request(rng, app, targeted):
     stub = {'classes': [], 'tree': [{'cls': 0}], 'routes': app['routes'], 'regs': app['stmts']}
     rq = c03.targeted_request(rng, stub) if targeted else c03.gen_request(rng, stub)
@@ -976,7 +1236,7 @@ def gen_cases(rng, napps, nreq, big=False):
     for _ in range(napps):
         app = gen_app(rng, big=big)
         for j in range(nreq):
-            case = dict(app, req=gen_request(rng, app, j % 2 == 1))
+            case = dict(app, req=gen_request(rng, app, j % 2 == 1), above=gen_above(rng, app), xpolicy=gen_xpolicy(rng, app))
             if j >= 2 and rng.random() < 0.5:
                 # same application, another site / exception
                 n = len(app['xclasses'])
@@ -1000,8 +1260,8 @@ def check_case(case):
 def compare_model(case, res, mo):
     if mo is None or res['minfo'] is None:
         return None
-    if res['viol'] and res['viol'].get('finding') == 'F-C14c':
-        return None          # outside the model: view bodies raising PredicateMismatch
+    if res['viol'] and (res['viol'].get('finding') in ('F-C14c', 'F-C14d') or res['viol'].get('also') in ('F-C14c', 'F-C14d')):
+        return None          # outside the model: view bodies raising PredicateMismatch; __call_permissive__ skipping predicates
     obs = res['obs']
     if 'error' in mo:
         return {'case': case, 'impl': obs_public(obs), 'model': mo}
@@ -1073,6 +1333,16 @@ def shrink_case(case, pred):
             c = dict(cur, **{key: val})
             if ok(c):
                 cur = c
+    for key in ('above', 'xpolicy'):
+        if cur.get(key):
+            c = dict(cur, **{key: None})
+            if ok(c):
+                cur = c
+    for i, st in enumerate(cur['stmts']):
+        if st.get('touch'):
+            c = dict(cur, stmts=cur['stmts'][:i] + [dict(st, touch=False)] + cur['stmts'][i + 1:])
+            if ok(c):
+                cur = c
     for key in ('prior', 'touch'):
         if cur['site'].get(key):
             c = dict(cur, site=dict(cur['site'], **{key: False}))
@@ -1120,8 +1390,12 @@ W_PM_BODY = base_case(xclasses=[{'bases': [['b', 'PredicateMismatch']]}],
                       stmts=[mk('view', 1, None, opts={'request_method': 'GET'}, body=['raise', ['u', 0], 'body']), mk('view', 2, None),
                              mk('exc', 3, ['u', 0])],
                       site={'at': 'none', 'exc': ['u', 0], 'prior': False, 'touch': False})
+# F-C14d: invoke_exception_view(secure=False) and a protected single exception view whose predicate is false: it answers
+W_PERMISSIVE = base_case(stmts=[mk('view', 1, ['u', 0], perm='p', xonly=True, opts={'request_method': 'POST'})],
+                         site={'at': 'contextfound', 'exc': ['u', 1], 'prior': False, 'touch': False},
+                         xpolicy={'excinfo': 'current', 'secure': False, 'reraise': True})
 WITNESSES = (('protected-exception-view-refused', 'F-C14a'), ('lookup-cache-holds-classifier (regression of fixed F-C14b)', None),
-             ('view-body-raises-PredicateMismatch', 'F-C14c'))
+             ('view-body-raises-PredicateMismatch', 'F-C14c'), ('insecure-invocation-skips-predicates', 'F-C14d'))
 
 
 def run(ctx):
@@ -1155,7 +1429,9 @@ def run(ctx):
             'http_exception_raised': 0, 'predicate_mismatch_family_raised': 0, 'prior_attrs': 0, 'touched_response': 0,
             'exception_only_stmts': 0, 'both_classifier_stmts': 0, 'route_requests': 0, 'no_policy': 0, 'default_permission': 0,
             'no_default_excview': 0, 'root_is_exception_instance': 0, 'root_exactly_of_raised_class': 0, 'same_spec_main_hit_then_exception_lookup': 0, 'incoherent_cases': 0, 'silent_oracle': 0, 'finding_hits': {},
-            'self_response_status': {}, 'commit_mode': {}}
+            'self_response_status': {}, 'commit_mode': {},
+            'above_site': {}, 'execution_policy': {}, 'policy_level_renderings': 0, 'exception_view_touched_response': 0,
+            'carries_earlier_exception_then_no_match': 0, 'containment_on_exception_view': 0, 'physical_path_on_exception_view': 0}
     for case, res, mo in zip(cases, results, model):
         m = compare_model(case, res, mo)
         if m:
@@ -1191,6 +1467,16 @@ def run(ctx):
                     dist[d_] += 1
         if mo and not mo.get('coherent', True):
             dist['incoherent_cases'] += 1
+        vfutil.bump(dist['above_site'], (case.get('above') or {}).get('at', 'none'))
+        xp_ = case.get('xpolicy')
+        vfutil.bump(dist['execution_policy'], 'default' if not xp_ else 'invoke(excinfo=%s,secure=%s,reraise=%s)' % (
+            'given' if xp_.get('excinfo') == 'current' else 'none' if xp_.get('excinfo') is None else 'other', xp_['secure'], xp_['reraise']))
+        if st and st.get('policy_level'):
+            dist['policy_level_renderings'] += 1
+            if obs['out'][0] == 'raise' and obs['attrs'] and obs['attrs'][0] is not None and obs['attrs'][0] != ID_PRIOR:
+                dist['carries_earlier_exception_then_no_match'] += 1
+        if res['minfo'] and mo and mo.get('seen') and any(s_.get('touch') and s_['tag'] == (obs['out'][2] if obs['out'][:2] == ['resp', 'view'] else -1) for s_ in case['stmts']):
+            dist['exception_view_touched_response'] += 1
         if case['site'].get('prior'):
             dist['prior_attrs'] += 1
         if case['site'].get('touch'):
@@ -1203,6 +1489,10 @@ def run(ctx):
             seen.add(key)
             for s in case['stmts']:
                 vfutil.bump(dist['stmt_kinds'], s['kind'])
+                if stmt_isexc(s) and 'containment' in s['opts']:
+                    dist['containment_on_exception_view'] += 1
+                if stmt_isexc(s) and 'physical_path' in s['opts']:
+                    dist['physical_path_on_exception_view'] += 1
                 if stmt_isexc(s) and stmt_xonly(s):
                     dist['exception_only_stmts'] += 1
                 elif stmt_isexc(s):
@@ -1247,7 +1537,7 @@ def run(ctx):
     out_viol += list(known_seen.values())
     out_viol += unknown[3:8]
     notes = []
-    for (name, fid), wcase in zip(WITNESSES, (W_PROTECTED, W_CACHE, W_PM_BODY)):
+    for (name, fid), wcase in zip(WITNESSES, (W_PROTECTED, W_CACHE, W_PM_BODY, W_PERMISSIVE)):
         try:
             r = check_case(wcase)
         except Exception as e:
